@@ -5,6 +5,7 @@
 (*  2 opts  : one request / update scenario per session, run under every option set                                         *)
 (*  3 conn  : every sequence over {broker down, broker up, iteration, 16 s, update, tick, feed} up to a length               *)
 (*  4 famB  : requests on the second message family (read and write message of one name, two circuits, passive two-field)    *)
+(*  5 int   : worlds with an integration file (--mqttint): definitions of messages and global items, filter-seen, restart topic *)
 (* Every session starts with one iteration (the CONNACK) and ends with the drain tick, feed, iteration, tick, feed,          *)
 (* iteration.                                                                                                               *)
 EXTENDS MqttHandler
@@ -35,14 +36,17 @@ OptSets(x) == <<
 
 Worlds(tier) ==
   {World(1, FamA, o, 0, 0) : o \in {O_plain, Opt(<<>>, "n", 1, 0, 0, 0, <<>>), Opt(T_tpFull, "j", 1, 0, 0, 0, <<>>)}}
+  \cup (IF tier = "thorough" THEN {World(6, FamA, Opt(<<>>, "n", 1, 0, 0, 0, <<>>), 0, 0)} ELSE {})
   \cup {World(2, FamA, OptSets(0)[i], 0, 0) : i \in DOMAIN OptSets(0)}
   \cup {World(2, FamA, O_plain, 1, 0)}                                            \* no signal on the bus
   \cup {World(3, FamA, o, 0, bd) : o \in {O_plain, Opt(<<>>, "n", 1, 0, 0, 0, <<>>)}, bd \in {0, 1}}
+  \cup {World(5, FamA, OptInt(o, v), 0, 0) : o \in {O_plain, Opt(T_tpHp, "j", 0, 1, 0, 0, <<>>)}, v \in {1, 2}}
   \cup {World(4, FamB, o, 0, 0) : o \in {O_plain, Opt(<<>>, "n", 1, 0, 0, 0, <<>>), Opt(<<>>, "j", 0, 0, 0, 0, <<>>), Opt(T_tpField, "n", 0, 0, 0, 0, <<>>)}}
 
 (* ---- 1 deep ---- *)
 DeepAlpha == {EvT(1), EvU(1, <<21>>), EvU(1, <<22>>), EvF, EvM}
 Deep(tier) == {Sess(1, b) : b \in SeqsUpTo(DeepAlpha, IF tier = "thorough" THEN 5 ELSE 4)}
+              \cup (IF tier = "thorough" THEN {Sess(6, b) : b \in [1..6 -> DeepAlpha]} ELSE {})      \* length 6 only with --mqttchanges
 
 (* ---- 2 opts ---- *)
 WithData == <<EvU(1, <<21>>), EvU(4, <<1>>), EvT(1), EvF, EvM>>
@@ -71,6 +75,10 @@ Opts(tier) == {Sess(2, b) : b \in OptsBodies(tier)}
 ConnAlpha == {EvD, EvB, EvM, EvT(16), EvU(1, <<21>>), EvT(1), EvF}
 Conn(tier) == {Sess(3, b) : b \in SeqsUpTo(ConnAlpha, IF tier = "thorough" THEN 4 ELSE 3)}
               \cup {Sess(3, b \o <<EvT(16), EvM, EvM, EvM>>) : b \in SeqsUpTo(ConnAlpha, IF tier = "thorough" THEN 3 ELSE 2)}
+              \cup {Sess(3, b) : b \in {<<EvT(16), EvM, EvD, EvM, EvB, EvM, EvT(16), EvM, EvM, EvM>>,
+                                         <<EvT(16), EvM, EvD, EvM, EvT(16), EvM, EvB, EvM, EvT(16), EvM, EvM>>,
+                                         <<EvU(1, <<21>>), EvT(1), EvF, EvD, EvM, EvB, EvM, EvT(16), EvM, EvM, EvT(1), EvF, EvM>>,
+                                         <<EvT(16), EvM, EvD, EvB, EvM, EvT(16), EvM, EvM, EvI(2, T_get, <<>>, <<>>), EvM>>}}
 
 (* ---- 4 family B ---- *)
 WithDataB == <<EvU(3, <<61>>), EvU(4, <<5, 1>>), EvT(1), EvF, EvM>>
@@ -85,5 +93,19 @@ FamBBodies(tier) ==
         <<EvR(1)>>}
 FamBSess(tier) == {Sess(4, b) : b \in FamBBodies(tier)}
 
-Sessions(tier) == Deep(tier) \cup Opts(tier) \cup Conn(tier) \cup FamBSess(tier)
+(* ---- 5 integration file (definitions) ---- *)
+IntDrain == <<EvT(1), EvF, EvM, EvT(1), EvF, EvM, EvT(16), EvM, EvT(16), EvM>>
+IntBodies(tier) ==
+  {<<>>, <<EvT(16), EvM>>, <<EvT(16), EvM, EvT(16), EvM>>, WithData, WithData \o <<EvT(16), EvM, EvM>>,
+   <<EvT(16), EvM>> \o WithData, <<EvT(16), EvM, EvR(2)>>, <<EvR(2), EvT(1), EvT(16), EvM>>,
+   <<EvT(16), EvM, EvI(2, T_get, T_q3, <<>>), EvM, EvT(16), EvM>>, <<EvI(2, T_get, T_q3, <<>>), EvM, EvT(16), EvM, EvI(2, T_get, T_q3, <<>>), EvM>>,
+   <<EvT(16), EvM, EvI(11, T_restart, <<>>, <<>>), EvM>>, <<EvT(16), EvM, EvI(11, T_restart, <<>>, <<>>), EvM, EvT(16), EvM, EvM>>,
+   WithData \o <<EvT(16), EvM, EvI(11, T_restart, <<>>, T_x1), EvM, EvT(16), EvM>>,
+   <<EvT(16), EvM, EvI(3, T_set, <<>>, T_x7), EvM>>, <<EvI(3, T_set, <<>>, T_x7), EvM, EvT(16), EvM>>,
+   <<EvD, EvM, EvT(16), EvM, EvB, EvM, EvT(16), EvM, EvM>>, <<EvT(16), EvM, EvD, EvM, EvB, EvM, EvT(16), EvM, EvM>>,
+   <<EvU(1, <<21>>), EvT(16), EvM, EvU(4, <<1>>), EvT(16), EvM>>, <<EvT(16), EvM, EvU(1, <<21>>), EvT(1), EvF, EvM, EvU(1, <<22>>), EvT(16), EvF, EvM>>,
+   <<EvI(7, T_list, <<>>, <<>>), EvM, EvT(16), EvM>>}
+IntSess(tier) == {[fam |-> 5, ev |-> <<EvM>> \o b \o IntDrain] : b \in IntBodies(tier)}
+
+Sessions(tier) == Deep(tier) \cup Opts(tier) \cup Conn(tier) \cup FamBSess(tier) \cup IntSess(tier)
 =============================================================================
